@@ -27,7 +27,7 @@ RULE = ('cases: (a) exhaustive: n in 2..N systems x priority pattern {all distin
         'times. Non-trivial: the system set really changed during a step; distinct by (priorities, actor positions, actions).')
 ASSUMPTIONS = ['whether a system registered mid-timestep first runs in that timestep or the next is left open',
                'the oracle is computed from the script: a system removed before its turn does not perform its own scripted action']
-FLOORS = {'quick': {'action_steps': 2400, 'act_cleanup': 60, 'act_remove_earlier': 90, 'act_remove_later': 90, 'act_add_higher': 120,
+FLOORS = {'quick': {'str_subclass_ids': 11455, 'falsy_system_objects': 9414, 'action_steps': 2400, 'act_cleanup': 60, 'act_remove_earlier': 90, 'act_remove_later': 90, 'act_add_higher': 120,
                     'act_add_equal': 60, 'act_add_lower': 120, 'act_replace_earlier': 200, 'act_replace_later': 200, 'act_readd_self': 200,
                     'act_readd_earlier': 200, 'act_compound': 500, 'act_readd_later': 200, 'blocks_multi': 2000, 'blocks_single': 2000, 'removed_via_clean_up': 300, 'big_histories': 20, 'big_history_changes': 1000, 'quiet_steps': 4000, 'two_actor_steps': 1000,
                     'reach:Core.SystemManager.execute_systems': 5000, 'reach:Core.System.clean_up': 60},
@@ -66,6 +66,11 @@ def fixtures():
             Scripted.execute(self)
 
     Scripted.AsCollector = ScriptedCollector
+    # falsy-but-valid user systems (an empty job queue has len 0; a switch that is off is False) - they are systems like any other
+    Scripted.variants = [Scripted, type('ScriptedSized', (Scripted,), {'__len__': lambda self: 0}),
+                         type('ScriptedOff', (Scripted,), {'__bool__': lambda self: False})]
+    ScriptedCollector.variants = [ScriptedCollector, type('ScriptedCollectorSized', (ScriptedCollector,), {'__len__': lambda self: len(self.records)}),
+                                  type('ScriptedCollectorOff', (ScriptedCollector,), {'__bool__': lambda self: False})]
     return core, Scripted
 
 
@@ -78,7 +83,9 @@ class World:
         self.ctx = ctx
         self.flavour = flavour            # which of the systems are Collector subclasses
         self.core, self.Scripted = fixtures()
-        self.model = self.core.Model()
+        from vlib import reps
+        self.reps = reps
+        self.model = self.core.Model(logger=reps.quiet_logger()) if flavour % 4 == 3 else self.core.Model()
         self.log = []          # (timestep, uid)
         self.script = {}
         self.ref = []          # dicts id(uid), sid, prio, seq  (registered now)
@@ -99,7 +106,14 @@ class World:
         self.generation[sid] = self.generation.get(sid, -1) + 1
         uid = sid if self.generation[sid] == 0 else f'{sid}#v{self.generation[sid] + 1}'
         cls = self.Scripted.AsCollector if (hash_of(uid) + self.flavour) % 3 == 0 else self.Scripted
-        o = cls(sid, self.model, self, priority=prio, uid=uid)
+        cls = cls.variants[[0, 1, 0, 2, 0][(hash_of(uid) * 7 + self.flavour) % 5]]
+        if cls is not cls.variants[0]:
+            self.ctx.count('falsy_system_objects')
+        # the identifier may be an instance of a str subclass (equal to and hashing like the plain string)
+        idrep = [str, self.reps.Label, str, self.reps.ShoutLabel][(hash_of(sid) + 3 * self.flavour) % 4]
+        if idrep is not str:
+            self.ctx.count('str_subclass_ids')
+        o = cls(idrep(sid), self.model, self, priority=prio, uid=uid)
         self.objs[uid] = o
         self.model.systems.add_system(o)
         return self._entry(uid, sid, prio)
